@@ -31,11 +31,11 @@ SPEC = dict(
     jobs=[
         job('plan-exh', 'h_server_write', 'plan-exh', cases=-1, scale={Q: 4, T: 6}, procs=16, sources=SRC),
         job('plan-err', 'h_server_write', 'plan-err', cases=-1, scale={Q: 4, T: 6}, procs=16, sources=SRC),
-        job('rand', 'h_server_write', 'rand', cases={Q: 9000, T: 80000}, procs=16, sources=SRC),
-        job('kernel', 'h_server_write', 'kernel', cases={Q: 1000, T: 12000}, procs=16, sources=SRC),
+        job('rand', 'h_server_write', 'rand', cases={Q: 18000, T: 80000}, procs=16, sources=SRC),
+        job('kernel', 'h_server_write', 'kernel', cases={Q: 2000, T: 12000}, procs=16, sources=SRC),
         job('accept-exh', 'h_server_write', 'accept-exh', cases=-1, scale={Q: 3, T: 5}, procs=16, sources=SRC),
-        job('accept-rand', 'h_server_write', 'accept-rand', cases={Q: 2000, T: 30000}, procs=16, sources=SRC),
-        job('accept-kernel', 'h_server_write', 'accept-kernel', cases={Q: 300, T: 4000}, procs=16, sources=SRC),
+        job('accept-rand', 'h_server_write', 'accept-rand', cases={Q: 4000, T: 30000}, procs=16, sources=SRC),
+        job('accept-kernel', 'h_server_write', 'accept-kernel', cases={Q: 600, T: 4000}, procs=16, sources=SRC),
     ],
     floors={Q: dict(cases=6000, plans_fully_consumed=2808, send_calls=90000, send_partial=60000, send_eagain=6000, send_error=700, backlog_drained=9000, onWrite=9000, writes_append_path=2500,
                     postponed_checks=18000, backlog_size_checks=200000, peer_bytes_verified=1200000000, independent_poll_checks=150000, streams_verified_end_to_end=6000,
